@@ -25,7 +25,9 @@ import (
 // guarantees), proposals without operations (operation processing is C10's subject), voteproofs.
 //
 // The world: two proposals, P0 at (H, round 0) and P1 at (H, round 1) or (H+1, round 1), H
-// symbolic; the processors start with any previousSaved (NilHeight or a height); the manifest a
+// symbolic; the processors start after any earlier history: nothing saved yet, or a block saved at
+// any height S (really processed and saved through the same calls before the explored ones - the
+// harness does not touch the processors' private fields); the manifest a
 // processor computes for proposal i has the hash m_i (block production is deterministic). An
 // ACCEPT voteproof names a proposal (its own point is the point of that proposal: ballots of
 // other points are refused when they are received) and a new-block hash: m_i, or - the most
@@ -34,7 +36,7 @@ import (
 // "Saved" = BlockWriter.Save is called. Checked for every Save the writer sees:
 //   * the writer's manifest was computed, and its hash is the new-block hash of the ACCEPT
 //     voteproof handed to that writer, and that voteproof's majority names the writer's proposal
-//   * its height is above previousSaved at the start and above every height saved before
+//   * its height is above every height saved before (including the block of the earlier history)
 //     (which gives: at most one block per height)
 
 // ---- proposals ----
@@ -124,7 +126,7 @@ type verifC11World struct {
 	failfetch bool        // getproposal fails
 	writers   int
 	saved     []verifC11Saved
-	start     base.Height // previousSaved at the start
+	start     base.Height // the height saved by the earlier history (NilHeight: none)
 }
 
 type verifC11Writer struct {
@@ -169,6 +171,30 @@ func verifC11NewWorld(nprops int) *verifC11World {
 		w.facts = append(w.facts, &verifC11ProposalFact{idx: i, h: valuehash.NewBytes([]byte{'p', byte(i)}), point: points[i]})
 		w.mhash = append(w.mhash, valuehash.NewBytes([]byte{'m', byte(i)}))
 	}
+	// any earlier history: nothing saved yet, or some height saved last
+	// (the case split on how S lies to H and H+1 is made here once, so that the comparisons in the
+	// code under test do not fork; the five cases together are every S)
+	w.start = base.NilHeight
+	if region := verifrt.NondetChoice("earlier-history", 5); region > 0 {
+		st := int64(verifrt.NondetInt("previoussaved"))
+		verifrt.Assume(st >= 0)
+		verifrt.Assume(st < 1<<62)
+		switch region {
+		case 1:
+			verifrt.Assume(st < h)
+		case 2:
+			verifrt.Assume(st == h)
+		case 3:
+			verifrt.Assume(st == h+1)
+		default:
+			verifrt.Assume(st > h+1)
+		}
+		w.start = base.Height(st)
+	}
+	if w.start > base.NilHeight {
+		w.facts = append(w.facts, &verifC11ProposalFact{idx: nprops, h: valuehash.NewBytes([]byte{'p', 's'}), point: base.NewPoint(w.start, 0)})
+		w.mhash = append(w.mhash, valuehash.NewBytes([]byte{'m', 's'}))
+	}
 	args := NewDefaultProposalProcessorArgs()
 	args.NewWriterFunc = func(pr base.ProposalSignFact, _ base.GetStateFunc) (BlockWriter, error) {
 		w.writers++
@@ -191,10 +217,12 @@ func verifC11NewWorld(nprops int) *verifC11World {
 		},
 	)
 	w.pps.SetRetryLimit(1).SetRetryInterval(time.Millisecond)
-	// any earlier history: nothing saved yet, or some height saved last
-	w.start = base.Height(verifrt.NondetInt("previoussaved"))
-	verifrt.Assume(w.start >= base.NilHeight && w.start < 1<<62)
-	w.pps.previousSaved = w.start
+	if w.start > base.NilHeight {
+		d := &verifC11Driver{w: w, ctx: context.Background(), cancel: func() {}, wait: true}
+		d.do(verifC11Call{kind: verifC11Process, prop: nprops})
+		d.do(verifC11Call{kind: verifC11SaveMatch, prop: nprops})
+		verifrt.Assert(len(w.saved) == 1, "C11.harness.earlier-history-saved-its-block")
+	}
 	return w
 }
 
@@ -258,7 +286,7 @@ func (d *verifC11Driver) do(c verifC11Call) {
 		nb := w.mhash[c.prop]
 		if c.kind == verifC11SaveOther {
 			// the most confusable other hash: the manifest hash of another proposal
-			nb = w.mhash[(c.prop+1)%len(w.mhash)]
+			nb = w.mhash[(c.prop+1)%2]
 		}
 		avp := &verifC11AVP{fact: verifC11ACCEPTFact{
 			point: base.NewStagePoint(f.point, base.StageACCEPT), proposal: f.h, newblock: nb,
@@ -277,7 +305,7 @@ func (d *verifC11Driver) do(c verifC11Call) {
 
 // verifC11CheckSaved: the clauses of C11 over everything the writers saved, in the order of saving.
 func verifC11CheckSaved(w *verifC11World) {
-	top := w.start
+	top := base.NilHeight
 	for i := range w.saved {
 		s := w.saved[i]
 		verifrt.Reach("C11.block-saved")
@@ -290,16 +318,13 @@ func verifC11CheckSaved(w *verifC11World) {
 		verifrt.Assert(s.avp.BallotMajority().Proposal().Equal(s.proposal.h),
 			"C11.the-saved-manifest-is-the-one-computed-for-the-proposal-the-ACCEPT-majority-names")
 		h := s.proposal.point.Height()
-		if i == 0 {
-			verifrt.Assert(h > top, "C11.never-saves-a-height-at-or-below-one-already-saved(before-the-explored-calls)")
-		} else {
+		if i > 0 {
 			verifrt.Reach("C11.second-block-saved")
 			verifrt.Assert(h != top, "C11.saves-at-most-one-block-per-height")
 			verifrt.Assert(h > top, "C11.never-saves-a-height-at-or-below-one-already-saved")
 		}
 		top = h
 	}
-	verifrt.Assert(w.pps.previousSaved >= top, "C11.the-saved-height-it-remembers-never-falls-below-a-saved-block")
 }
 
 // VerifC11Sequence: a sequence of calls by one caller, from any previousSaved.
@@ -324,9 +349,7 @@ func VerifC11Sequence() {
 		if c.kind == verifC11Process && failfetch {
 			w.failfetch = verifrt.NondetChoice("failfetch", 2) == 1
 		}
-		before := w.pps.previousSaved
 		d.do(c)
-		verifrt.Assert(w.pps.previousSaved >= before, "C11.the-saved-height-it-remembers-never-decreases")
 	}
 	verifrt.Reach("C11.sequence.done")
 	verifC11CheckSaved(w)
